@@ -66,3 +66,15 @@ claim("C14",
       "PBT with a validity predicate: Hypothesis-generated programs over every RUN-producing construct and operand shape; interfaces parsed from the current ecb.b09; arity and string/numeric/record kind of every RUN argument checked, plus one enumeration of all RUNs inside the library and a field-by-field comparison of the record TYPE lines",
       "Generated-input search over emitted calls; the library-internal calls and the record types are enumerated completely on every run.",
       PARSE_NOTE, "DESIGN.md section 6, C14")
+claim("C08",
+      "metamorphic PBT: one generated AST rendered canonically and in 6-10 layouts drawn token boundary by token boundary; all spellings must be rejected alike or convert to byte-identical output; literal / DATA / comment content recovered from the output by an independent tokenizer",
+      "Generated-input search over programs x layouts (blanks, ?/PRINT, LF/CR/CRLF, empty lines, trailing NUL, blanks inside numeric literals). Found and repaired: CR line ends and trailing NUL leaking into comments / DATA / open strings.",
+      PARSE_NOTE + "Layout freedom is limited to what Color BASIC and the README allow.", "DESIGN.md section 6, C08")
+claim("C11",
+      "metamorphic PBT: per option a projection under which on/off outputs must be equal (labels stripped, initialiser lines removed and recognised structurally, start-up flag masked, bundle prefix removed, string sizes removed), over drawn settings of the other options; differential CLI-vs-API check of decb-to-b09 with the documented flag mapping",
+      "Generated-input search over programs x option settings (4 random settings of the other options per program in the quick tier, all 32 in the thorough tier) and over CLI flag subsets, -c files and input file names.",
+      PARSE_NOTE, "DESIGN.md section 6, C11")
+claim("C15",
+      "grammar-directed mutation fuzzing under Hypothesis: token deletions / duplications / swaps / replacements, extreme literals, spliced programs, deep nesting, raw text, drawn option sets and size maps, CLI file names; oracle 'text or documented refusal, no hang', internal failures bucketed by (exception type, innermost function in coco/, message part)",
+      "Generated-input search; five recorded internal failures are recognised by call site, any other internal exception, wrong return type or hang is a violation. The atheris coverage-guided target of the design is not built (see DESIGN.md).",
+      "Trusts the list of documented refusal exceptions; hang limit 20 s / 120 s against a normal cost of milliseconds.", "DESIGN.md section 6, C15")
